@@ -1742,7 +1742,7 @@ Proof.
       * split; auto. split; simpl; auto. split; [|split; intros ? []].
         intros w [<-|[]] Hw. exact Hw.
     + destruct (thread_ok_nostack_inv _ _ _ _ _ Hth E Ew) as (t & v & Ec & Hw & _ & _). rewrite Ec in Hb.
-      destruct Hb as (B1 & B2 & B3). rewrite Ew in Hw, B1. inversion Hw as [|? ? Hwi Hw']; subst.
+      destruct Hb as (B1 & B2 & B3). rewrite Ew in Hw. try rewrite Ew in B1. inversion Hw as [|? ? Hwi Hw']; subst.
       destruct wi as [t0 v0|f v0|p v0].
       * (* a cache request starts *)
         inversion H; subst; clear H. simpl. split; auto. split; simpl; auto. rewrite Ec. rewrite Ew. split; [exact B1|]. split.
@@ -1782,7 +1782,7 @@ Proof.
            intros w0 [<-|Hin] Hbad; [|apply (B1 w0); [right; exact Hin | exact Hbad]].
            destruct Hbad as (u & (k' & Hg' & Hu) & Hj). apply Hold. rewrite Hg in Hg'. inversion Hg'; subst. rewrite <- Hk. exact Hj.
   - destruct (thread_ok_stack_inv _ _ _ _ _ Hth E) as (t & v & t' & v' & w & Ec & Ew & Hs & Hw & _ & _).
-    rewrite Ec in Hb. destruct Hb as (B1 & B2 & B3). rewrite E in B2, B3.
+    rewrite Ec in Hb. destruct Hb as (B1 & B2 & B3). try rewrite E in B2. try rewrite E in B3.
     pose proof (stack_ok_frames _ _ _ _ Hs) as Hfrs. inversion Hfrs as [|? ? Hfr Hfrs']; subst.
     assert (B1' : forall w0, In w0 (th_work th) -> witem_bad (sh_phs sh) (sh_heap sh) w0 -> job_bad t v).
     { intros w0 Hin Hbad. apply (B1 w0 Hin). eapply witem_bad_back; eauto. rewrite Forall_forall in Hw. auto. }
@@ -1794,7 +1794,7 @@ Proof.
     assert (Hretb : forall f, typed phs heap f (f_ty fr) -> bad_thread (sh_phs sh) (sh_heap sh) (ret th rest f)).
     { intros f Hf. unfold ret. destruct rest as [|parent rest'].
       - rewrite Ew. split; simpl; auto. rewrite Ec. split; [|split; intros ? []].
-        intros w0 [<-|Hin] Hbad; [|apply B1'; [rewrite Ew; right; exact Hin | exact Hbad]].
+        intros w0 [<-|Hin] Hbad; [|apply (B1' w0); [rewrite Ew; right; exact Hin | exact Hbad]].
         destruct Hbad as (u & Hu & Hj). apply (B1 (WGet t' v')); [rewrite Ew; left; reflexivity|]. simpl.
         simpl in Hs. destruct Hs as [_ Hs]. rewrite Hs in Hf.
         rewrite (typed_unique _ _ _ _ _ (typed_ext _ _ _ _ _ _ He Hf) Hu). exact Hj.
